@@ -97,8 +97,18 @@ func fillArbitrary(name string, v reflect.Value, depth int) {
 			fillArbitrary(fmt.Sprintf("%s[%d]", name, i), s.Index(i), depth+1)
 		}
 		v.Set(s)
+	case reflect.Array:
+		for i := 0; i < v.Len(); i++ {
+			fillArbitrary(fmt.Sprintf("%s[%d]", name, i), v.Index(i), depth+1)
+		}
+	case reflect.Map:
+		if Bool(name + "?") {
+			v.Set(reflect.MakeMap(v.Type()))
+		} else {
+			v.Set(reflect.Zero(v.Type()))
+		}
 	default:
-		v.Set(reflect.Zero(v.Type())) // interfaces, maps, funcs, channels: zero
+		v.Set(reflect.Zero(v.Type())) // interfaces, funcs, channels: zero
 	}
 }
 
